@@ -108,6 +108,7 @@ CHECKS = {
         "runs": [
             R("./proxyproto", "^TestC08Func", {"checks": 30000, "timeout": 300}, {"checks": 300000, "shards": 6, "timeout": 1500}),
             R("./proxyproto", "^TestC08Conn", {"checks": 4000, "timeout": 300}, {"checks": 40000, "shards": 8, "timeout": 1500}),
+            R("./proxyproto", "^TestC08Neighbours", {"checks": 1500, "timeout": 300}, {"checks": 20000, "shards": 4, "timeout": 1500}),
             R("./proxyproto", "^TestC08Exhaustive", {"checks": 1}, {"checks": 1, "timeout": 1500}, tiers=("thorough",)),
             R(LAB, "^TestC08Stall", {"checks": 10, "timeout": 300}, {"checks": 120, "shards": 4, "timeout": 1500}),
         ],
